@@ -335,6 +335,13 @@ def call(I, fr, name, fname, k, args, depth):
         return True, Adt("model::FmtArgs", 0, "Args", [None, [], list(s.heap[s.start:s.start + s.len])])
     if name.endswith("fmt::format") or name.endswith("fmt::format::format_inner"):
         return True, StrBuf(list(render(I, args[0], depth)))
+    if name.endswith("io::_eprint") or name.endswith("io::_print"):
+        # process streams: the text is kept on the interpreter for the rule to inspect
+        chan = "stderr" if name.endswith("_eprint") else "stdout"
+        if not hasattr(I, "streams"):
+            I.streams = {"stderr": [], "stdout": []}
+        I.streams[chan].append(bytes(render(I, args[0], depth)))
+        return True, []
     if name.endswith("fmt::Arguments::<'a>::as_str") or name.endswith("fmt::Arguments::<'a>::as_statically_known_str"):
         a = args[0] if isinstance(args[0], Adt) else deref(I, args[0])
         from .stdmodel import NONE, some
